@@ -68,6 +68,8 @@ impl<'a> Printer<'a> {
             Cond::Let(v, e) => { let s = format!("let {} = {}", self.names.var(*v), self.expr(e, k)); k.insert(*v, Kind::Val); s }
             Cond::IfLetHalf(v, e) => { let s = format!("if let Some({}) = vfn::half({})", self.names.var(*v), self.expr(e, k)); k.insert(*v, Kind::Val); s }
             Cond::LatAbove(l, e) => format!("if vfn::lat_above({}, {})", self.names.var(*l), self.expr(e, k)),
+            Cond::IfLetConst(v, c) => format!("if let {} = {}", c, self.names.var(*v)),
+            Cond::IfLetBind(n, v) => { let s = format!("if let {} = {}", self.names.var(*n), self.names.var(*v)); k.insert(*n, self.kind(k, *v)); s }
         }
     }
 
@@ -125,7 +127,11 @@ impl<'a> Printer<'a> {
                     AggFn::Mean => ("::ascent::aggregators::mean".to_string(), Kind::F64),
                     AggFn::Percentile50 => ("(::ascent::aggregators::percentile(50.0))".to_string(), Kind::Val),
                     AggFn::MinMax => ("vfn::agg_minmax".to_string(), Kind::Val),
+                    AggFn::Not => ("::ascent::aggregators::not".to_string(), Kind::Val),
                 };
+                if *f == AggFn::Not {
+                    return format!("agg () = {}() in {}({})", fname, self.names.rels[*rel], args_s.join(", "));
+                }
                 let b = bound.map(|b| self.names.var(b)).unwrap_or_default();
                 let s = format!("agg {} = {}({}) in {}({})", self.names.var(*res), fname, b, self.names.rels[*rel], args_s.join(", "));
                 k.insert(*res, kind);
